@@ -118,6 +118,9 @@ TOTAL = {
     "core::slice::<impl [T]>::last": "returns Option",
     "core::slice::<impl [T]>::first": "returns Option",
     "std::ptr::eq": "address comparison",
+    "std::ops::RangeInclusive::<Idx>::new": "constructor",
+    "std::ops::RangeInclusive::<Idx>::contains": "two comparisons",
+    "std::ops::Range::<Idx>::contains": "two comparisons",
     "std::fmt::DebugStruct::<'a, 'b>::finish": "formatting plumbing of a hand-written Debug",
     "std::fmt::DebugStruct::<'a, 'b>::field": "formatting plumbing of a hand-written Debug",
     "std::fmt::DebugStruct::<'a, 'b>::finish_non_exhaustive": "formatting plumbing of a hand-written Debug",
@@ -720,6 +723,11 @@ def pending_none_under_request_ready(facts, lf):
                 return True
             if takes == 1 and is_call(x, "take") and sf(x[2][0], "pending_request"):
                 return True
+        elif ev[0] == "cond" and ev[3][0] == "discr" and rr and takes == 1:
+            # the same observation made with `?`: `self.pending_request.take()?` leaving through the None edge
+            from .util import option_test
+            if option_test(ev[3], ev[4], lambda y: is_call(y, "take") and sf(y[2][0], "pending_request")) == "none":
+                return True
     return False
 
 
@@ -871,6 +879,10 @@ def classify_cycle(ctx, fn, cyc):
             if p == "std::iter::Iterator::next":
                 drivers.append(("iterator", "Iterator::next on " + ((t["callee"].get("self_ty") or {}).get("s") or "?")[:60], b))
             elif last_seg(p) in ("pop_front", "pop", "pop_back") and ("VecDeque" in p or "Vec" in p):
+                drivers.append(("queue-drain", last_seg(p), b))
+            elif last_seg(p) in ("remove", "swap_remove") and "vec::Vec" in p and not any(fn.blocks[b2]["term"]["k"] == "call" and last_seg(fn.blocks[b2]["term"]["callee"].get("path") or "") in ("push", "insert", "extend", "append", "extend_from_slice", "resize") and "vec::Vec" in (fn.blocks[b2]["term"]["callee"].get("path") or "") for b2 in cyc):
+                # `while !v.is_empty() { .. v.remove(0) .. }`: every round takes one element out and none is added (an index out of
+                # range would be a panic site of its own, R03.2)
                 drivers.append(("queue-drain", last_seg(p), b))
             elif p == conn.P + "pop_parsed_request":
                 drivers.append(("queue-drain", "pop_parsed_request", b))
